@@ -184,3 +184,17 @@ Section H.
       [destruct (s_pc C sb)|]; first [reflexivity|discriminate].
   Qed.
 End H.
+
+(* non-vacuity: subscription 0's receiver stops, its forwarding task ends on the failed cast,
+   and the next subscribe prunes it: the vector is [1] while everything ever subscribed is [0;1];
+   before that subscribe the dead subscription is still in the vector *)
+Example prune_happens :
+  option_map (fun st => (handles unit st, order unit st, is_dead unit st 0))
+    (V1.run unit (fun _ m => Some m) 4 (init unit)
+       [LSubscribe 0 7 tt; LPublish 5; LStop 7; LRecv 0; LCast 0; LSubscribe 1 8 tt])
+  = Some ([1%N], [0%N; 1%N], true)
+  /\ option_map (fun st => (handles unit st, is_dead unit st 0))
+       (V1.run unit (fun _ m => Some m) 4 (init unit)
+          [LSubscribe 0 7 tt; LPublish 5; LStop 7; LRecv 0; LCast 0])
+     = Some ([0%N], true).
+Proof. vm_compute. split; reflexivity. Qed.
